@@ -21,7 +21,19 @@ var bigTen = big.NewInt(10)
 //	int : SMT integers (unbounded, signed)
 type BigV struct {
 	T       *Term
-	MaxBits int // bv mode: upper bound on the bit length of the value
+	MaxBits int      // bv mode: upper bound on the bit length of the value
+	Max     *big.Int // bv mode: upper bound on the value (nil: 2^MaxBits - 1)
+}
+
+func (b *BigV) max() *big.Int {
+	if b.Max != nil {
+		return b.Max
+	}
+	return new(big.Int).Sub(pow2(b.MaxBits), bigOne)
+}
+
+func bigWithMax(t *Term, m *big.Int) *BigV {
+	return &BigV{T: t, MaxBits: m.BitLen(), Max: m}
 }
 
 func (b *BigV) Copy() Value { n := *b; return &n }
@@ -34,11 +46,14 @@ func (b *BigV) Merge(c *Ctx, g *Term, other Value) (Value, bool) {
 	if !ok || x.T.S != b.T.S {
 		return nil, false
 	}
-	mb := b.MaxBits
-	if x.MaxBits > mb {
-		mb = x.MaxBits
+	m := b.max()
+	if x.max().Cmp(m) > 0 {
+		m = x.max()
 	}
-	return &BigV{T: c.Ite(g, b.T, x.T), MaxBits: mb}, true
+	if b.T.S.K == KInt {
+		return &BigV{T: c.Ite(g, b.T, x.T)}, true
+	}
+	return bigWithMax(c.Ite(g, b.T, x.T), m), true
 }
 
 func (ex *Exec) bigIsInt() bool { return ex.BigMode == "int" }
@@ -51,7 +66,7 @@ func (ex *Exec) bigConst(v *big.Int) *BigV {
 	if v.Sign() < 0 || v.BitLen() > w {
 		return &BigV{T: ex.Ctx.BVBig(w, v), MaxBits: 1 << 30}
 	}
-	return &BigV{T: ex.Ctx.BVBig(w, v), MaxBits: v.BitLen()}
+	return bigWithMax(ex.Ctx.BVBig(w, v), new(big.Int).Set(v))
 }
 
 func (ex *Exec) bigW() int {
@@ -151,14 +166,22 @@ func registerBigModels(ex *Exec) {
 				return nil, nil, unsupported("big.NewInt of possibly negative value (bit-vector model)")
 			}
 		}
-		return ex.newBig(s, &BigV{T: ex.Ctx.ZExt(t, ex.bigW()), MaxBits: 63}), nil, nil
+		mx := new(big.Int).Sub(pow2(63), bigOne)
+		if r.lo >= 0 {
+			mx = big.NewInt(r.hi)
+		}
+		return ex.newBig(s, bigWithMax(ex.Ctx.ZExt(t, ex.bigW()), mx)), nil, nil
 	}
 	m["(*math/big.Int).SetUint64"] = func(ex *Exec, s *State, cc *ssa.CallCommon, a []Value) (Value, *Fork, error) {
 		t := a[1].(*Term)
 		if ex.bigIsInt() {
 			return ex.bigSet(s, a[0], &BigV{T: ex.bvToIntChecked(s, t)})
 		}
-		return ex.bigSet(s, a[0], &BigV{T: ex.Ctx.ZExt(t, ex.bigW()), MaxBits: 64})
+		mx := new(big.Int).Sub(pow2(64), bigOne)
+		if r := ex.Ctx.rangeOf(t); r.lo >= 0 {
+			mx = big.NewInt(r.hi)
+		}
+		return ex.bigSet(s, a[0], bigWithMax(ex.Ctx.ZExt(t, ex.bigW()), mx))
 	}
 	m["(*math/big.Int).SetInt64"] = func(ex *Exec, s *State, cc *ssa.CallCommon, a []Value) (Value, *Fork, error) {
 		t := a[1].(*Term)
@@ -222,7 +245,7 @@ func registerBigModels(ex *Exec) {
 		if ex.bigIsInt() {
 			return ex.bigSet(s, a[0], &BigV{T: c.IntOp(OIMul, x.T, c.Int(pow2(k)))})
 		}
-		return ex.bigSet(s, a[0], &BigV{T: c.BVOp(OShl, x.T, c.BV(ex.bigW(), uint64(k))), MaxBits: x.MaxBits + k})
+		return ex.bigSet(s, a[0], bigWithMax(c.BVOp(OShl, x.T, c.BV(ex.bigW(), uint64(k))), new(big.Int).Lsh(x.max(), uint(k))))
 	}
 	m["(*math/big.Int).Rsh"] = func(ex *Exec, s *State, cc *ssa.CallCommon, a []Value) (Value, *Fork, error) {
 		x, err := ex.bigGet(s, a[1])
@@ -237,11 +260,7 @@ func registerBigModels(ex *Exec) {
 		if ex.bigIsInt() {
 			return ex.bigSet(s, a[0], &BigV{T: c.IntOp(OIDiv, x.T, c.Int(pow2(k)))})
 		}
-		mb := x.MaxBits - k
-		if mb < 0 {
-			mb = 0
-		}
-		return ex.bigSet(s, a[0], &BigV{T: c.BVOp(OLShr, x.T, c.BV(ex.bigW(), uint64(k))), MaxBits: mb})
+		return ex.bigSet(s, a[0], bigWithMax(c.BVOp(OLShr, x.T, c.BV(ex.bigW(), uint64(k))), new(big.Int).Rsh(x.max(), uint(k))))
 	}
 	m["(*math/big.Int).Or"] = bin(func(ex *Exec, x, y *BigV) (*BigV, error) {
 		if ex.bigIsInt() {
@@ -251,7 +270,7 @@ func registerBigModels(ex *Exec) {
 		if y.MaxBits > mb {
 			mb = y.MaxBits
 		}
-		return &BigV{T: ex.Ctx.Or(x.T, y.T), MaxBits: mb}, nil
+		return bigWithMax(ex.Ctx.Or(x.T, y.T), new(big.Int).Sub(pow2(mb), bigOne)), nil
 	})
 	m["(*math/big.Int).And"] = bin(func(ex *Exec, x, y *BigV) (*BigV, error) {
 		if ex.bigIsInt() {
@@ -264,21 +283,17 @@ func registerBigModels(ex *Exec) {
 			}
 			return nil, unsupported("big.Int.And in the integer model")
 		}
-		mb := x.MaxBits
-		if y.MaxBits < mb {
-			mb = y.MaxBits
+		m := x.max()
+		if y.max().Cmp(m) < 0 {
+			m = y.max()
 		}
-		return &BigV{T: ex.Ctx.And(x.T, y.T), MaxBits: mb}, nil
+		return bigWithMax(ex.Ctx.And(x.T, y.T), m), nil
 	})
 	m["(*math/big.Int).Add"] = bin(func(ex *Exec, x, y *BigV) (*BigV, error) {
 		if ex.bigIsInt() {
 			return &BigV{T: ex.Ctx.IntOp(OIAdd, x.T, y.T)}, nil
 		}
-		mb := x.MaxBits
-		if y.MaxBits > mb {
-			mb = y.MaxBits
-		}
-		return &BigV{T: ex.Ctx.Add(x.T, y.T), MaxBits: mb + 1}, nil
+		return bigWithMax(ex.Ctx.Add(x.T, y.T), new(big.Int).Add(x.max(), y.max())), nil
 	})
 	m["(*math/big.Int).Sub"] = bin(func(ex *Exec, x, y *BigV) (*BigV, error) {
 		if ex.bigIsInt() {
@@ -293,7 +308,7 @@ func registerBigModels(ex *Exec) {
 		if ex.bigIsInt() {
 			return &BigV{T: ex.Ctx.IntOp(OIMul, x.T, y.T)}, nil
 		}
-		return &BigV{T: ex.Ctx.Mul(x.T, y.T), MaxBits: x.MaxBits + y.MaxBits}, nil
+		return bigWithMax(ex.Ctx.Mul(x.T, y.T), new(big.Int).Mul(x.max(), y.max())), nil
 	})
 	quo := func(op Op, iop Op) ModelFn {
 		return func(ex *Exec, s *State, cc *ssa.CallCommon, a []Value) (Value, *Fork, error) {
@@ -323,11 +338,11 @@ func registerBigModels(ex *Exec) {
 				}
 				return ex.bigSet(s, a[0], &BigV{T: c.IntOp(iop, x.T, y.T)})
 			}
-			mb := x.MaxBits
-			if op == OURem && y.MaxBits < mb {
-				mb = y.MaxBits
+			m := x.max()
+			if op == OURem && y.max().Cmp(m) < 0 {
+				m = y.max()
 			}
-			return ex.bigSet(s, a[0], &BigV{T: c.BVOp(op, x.T, y.T), MaxBits: mb})
+			return ex.bigSet(s, a[0], bigWithMax(c.BVOp(op, x.T, y.T), m))
 		}
 	}
 	m["(*math/big.Int).Quo"] = quo(OUDiv, OIDiv)
@@ -564,6 +579,13 @@ func (ex *Exec) bvToIntChecked(s *State, t *Term) *Term {
 			obligations = append(obligations, c.IntOp(OILt, r, c.Int(pow2(w))))
 		case x.Op == OZExt:
 			r = tr(x.Args[0])
+		case x.Op == OSExt:
+			// unsigned value of a sign extension: inner value, plus 2^w - 2^iw when the sign bit is set
+			in := x.Args[0]
+			iw := in.S.W
+			neg := c.Eq(c.Extract(in, iw-1, iw-1), c.BV(1, 1))
+			u := c.BV2Int(in)
+			r = c.Ite(neg, c.IntOp(OIAdd, u, c.Int(new(big.Int).Sub(pow2(w), pow2(iw)))), u)
 		case x.Op == OIte:
 			r = c.Ite(x.Args[0], tr(x.Args[1]), tr(x.Args[2]))
 		default:
